@@ -25,7 +25,8 @@ impl CountMinSketch {
             return Err(TinyLFUError::InvalidCountMinWidth(ctrs));
         }
 
-        let ctrs = next_power_of_2(ctrs);
+        // two 4-bit counters share a byte: a width of 1 would give rows of 0 bytes
+        let ctrs = next_power_of_2(ctrs).max(2);
         let hctrs = ctrs / 2;
 
         let timestamp = SystemTime::now()
